@@ -6,7 +6,7 @@ pre-states; for EVERY transition whose operation raises, the full observation of
 object (all attributes, child lists by identity) must be identical before and after."""
 from checks import treeops as OPS  # noqa: F401
 from checks import c03, c04
-from mc import hist, report
+from mc import hist, par, report
 from ref import tree
 
 PROP = "C06"
@@ -111,8 +111,24 @@ PLANS = {
 }
 
 
+MERGE_CLAUSES = ("failed-merge-changed-destination",)
+
+
+def run_case(case):
+    """Layer 'merges of whole trees': the (destination, source) pairs of the C13 generator - deep trees, conflicts at
+    three depths, Properties with values of every inferred type - which the 9-object pool of the BFS cannot hold.  Only
+    the clause of this property is judged here: a merge that raises has changed nothing in the destination."""
+    from checks import c13
+    res = c13.run_case(case)
+    res["failures"] = [f for f in res["failures"] if f["desc"].get("clause") in MERGE_CLAUSES]
+    raised = any(not o.endswith(":ok") for o in res.get("outcomes", ()))
+    res["nontrivial"] = int(raised)
+    return res
+
+
 def check(tier):
-    run = report.Run(PROP, tier, LEVEL, RULE, assumptions=[
+    run = report.Run(PROP, tier, LEVEL, RULE + "; plus every (destination, source) pair of the C13 generator whose merge "
+                     "raises (non-trivial = the merge raised)", assumptions=[
         "pre-states that violate the C03 tree invariant are not expanded (no operation is judged from a "
         "state another property already forbids)",
         "a failed constructor can only be observed through objects reachable from the pool",
@@ -122,6 +138,10 @@ def check(tier):
     hist.bfs(run, "checks.c06", [OPS.START_DETACHED, OPS.START_BUILT, START_DEPENDENT, START_RELINK], plan)
     n_raise = sum(v for k, v in run.outcomes.items() if not k.endswith(":ok"))
     run.extra["raising_transitions_judged"] = n_raise
+    from checks import c13
+    cases = c13.gen_cases(tier)
+    run.layer("merges-of-whole-trees", cases=len(cases))
+    par.run_cases(run, "checks.c06", cases, nchunks=par.JOBS * 16)
     return run.finish(reproduce=lambda f: replay(f))
 
 
@@ -129,6 +149,8 @@ def replay(rec):
     from mc import env
     case = rec["case"]
     env.reset_globals(env.SEED)
+    if rec.get("check") == "merge":
+        return run_case(case)["failures"]
     pool = OPS.materialise(case["history"])
     base = OPS.copy_pool(pool)
     pre = pre_observe(pool, case["op"], case["cfg"])
